@@ -47,8 +47,10 @@ static std::string ser(PDU& p, const char* tag) {
 
 
 // raw option access, uniform over the option-bearing layers: add / remove first / search first
+static int g_explen = -1;   // "lopt": explicit length field, the option handed over as a const lvalue (the other overload)
 template <class L, class Id> static bool opt_add(PDU* l, Id id, const bytes& d) {
     L* p = dynamic_cast<L*>(l); if (!p) return false;
+    if (g_explen >= 0) { const typename L::option o(id, (uint16_t)g_explen, d.begin(), d.end()); p->add_option(o); return true; }
     p->add_option(typename L::option(id, d.begin(), d.end())); return true;
 }
 template <class L, class Id> static int opt_remove(PDU* l, Id id) { L* p = dynamic_cast<L*>(l); return p ? (p->remove_option(id) ? 1 : 0) : -1; }
@@ -64,6 +66,7 @@ static int opt_op(int op, PDU* l, unsigned code, const bytes& d, std::string& ou
 #define OPT_CASE(L, ID) if (dynamic_cast<L*>(l)) { if (op == 0) return opt_add<L>(l, ID, d) ? 1 : -1; if (op == 1) return opt_remove<L>(l, ID); return opt_search<L>(l, ID, out); }
     if (PPPoE* pp = dynamic_cast<PPPoE*>(l)) {
         // tags: add_tag / search_tag (there is no removal in the API)
+        if (op == 0 && g_explen >= 0) { const PPPoE::tag o((PPPoE::TagTypes)code, (uint16_t)g_explen, d.begin(), d.end()); pp->add_tag(o); return 1; }
         if (op == 0) { pp->add_tag(PPPoE::tag((PPPoE::TagTypes)code, d.begin(), d.end())); return 1; }
         if (op == 2) { const PPPoE::tag* o = pp->search_tag((PPPoE::TagTypes)code); if (!o) return 0; out = hex(o->data_ptr(), o->data_size()); return 1; }
         return -1;
@@ -135,11 +138,14 @@ static void run(const Script& s) {
                 std::string cls = one.str().substr(0, one.str().find(' '));
                 if (!vacc::set_field(*l, cls, t[2], num(t[3]))) { printf("N\n"); continue; }
                 printf("P %s\n", vacc::describe(*pkt).c_str());
-            } else if ((op == "aopt" || op == "ropt" || op == "sopt") && pkt) {
+            } else if ((op == "aopt" || op == "ropt" || op == "sopt" || op == "lopt") && pkt) {
+                // lopt <layer> <code> <len> x<data>: a const lvalue option whose length field is given explicitly
                 PDU* l = layer_at(pkt.get(), (int)num(t[1]));
                 if (!l) { printf("N\n"); continue; }
                 std::string found;
-                int r = opt_op(op == "aopt" ? 0 : op == "ropt" ? 1 : 2, l, (unsigned)num(t[2]), t.size() > 3 ? unhex(t[3]) : bytes(), found);
+                int r;
+                if (op == "lopt") { g_explen = (int)num(t[3]); r = opt_op(0, l, (unsigned)num(t[2]), t.size() > 4 ? unhex(t[4]) : bytes(), found); g_explen = -1; }
+                else r = opt_op(op == "aopt" ? 0 : op == "ropt" ? 1 : 2, l, (unsigned)num(t[2]), t.size() > 3 ? unhex(t[3]) : bytes(), found);
                 if (r < 0) { printf("N\n"); continue; }
                 if (op == "sopt") printf("O %d %s\n", r, found.c_str());
                 else printf("P %d %s\n", r, vacc::describe(*pkt).c_str());
@@ -169,6 +175,35 @@ static void run(const Script& s) {
                 // what the object claims to be (pdu_type()) next to what it is (the class the generated dynamic_cast chain finds)
                 std::ostringstream one; vacc::describe_layer(*pkt, one);
                 printf("T %d %s\n", (int)pkt->pdu_type(), one.str().substr(0, one.str().find(' ')).c_str());
+            } else if ((op == "rsn" || op == "rsnget") && pkt) {
+                // rsn <layer> <version> <group> <capabilities> <pairwise,...|-> <akm,...|->: Dot11ManagementFrame::rsn_information(RSNInformation)
+                // rsnget <layer>: what rsn_information() returns
+                Dot11ManagementFrame* l = dynamic_cast<Dot11ManagementFrame*>(layer_at(pkt.get(), (int)num(t[1])));
+                if (!l) { printf("N\n"); continue; }
+                if (op == "rsn") {
+                    RSNInformation r;
+                    r.version((uint16_t)num(t[2])); r.group_suite((RSNInformation::CypherSuites)num(t[3])); r.capabilities((uint16_t)num(t[4]));
+                    for (int w = 5; w <= 6; ++w) {
+                        std::string csv = t[w] == "-" ? "" : t[w];
+                        size_t pos = 0;
+                        while (pos < csv.size()) {
+                            size_t e = csv.find(',', pos); if (e == std::string::npos) e = csv.size();
+                            uint32_t v = (uint32_t)num(csv.substr(pos, e - pos));
+                            if (w == 5) r.add_pairwise_cypher((RSNInformation::CypherSuites)v); else r.add_akm_cypher((RSNInformation::AKMSuites)v);
+                            pos = e + 1;
+                        }
+                    }
+                    l->rsn_information(r);
+                    printf("P %s\n", vacc::describe(*pkt).c_str());
+                } else {
+                    RSNInformation r = l->rsn_information();
+                    printf("R %u %u %u", (unsigned)r.version(), (unsigned)r.group_suite(), (unsigned)r.capabilities());
+                    printf(" p");
+                    for (size_t i = 0; i < r.pairwise_cyphers().size(); ++i) printf("%s%u", i ? "," : "=", (unsigned)r.pairwise_cyphers()[i]);
+                    printf(" a");
+                    for (size_t i = 0; i < r.akm_cyphers().size(); ++i) printf("%s%u", i ? "," : "=", (unsigned)r.akm_cyphers()[i]);
+                    printf("\n");
+                }
             } else if (op == "ext6" && pkt) {
                 // IPv6::add_header(ext_header(type, data))
                 IPv6* l = dynamic_cast<IPv6*>(layer_at(pkt.get(), (int)num(t[1])));
